@@ -21,7 +21,10 @@ Contract (written from the property statement; executed natively on the real cod
 Observation points.  Validator: a State subclass that notes which standard-named state variables are assigned inside
 each data unit (a data unit starts when parse_code is assigned; the values are copied when the unit ends), and the
 decoder.stream module's picture_decode reference wrapped in-process to copy the transform arrays before the inverse
-transform.  Deserialiser: Deserialiser.context only (no '_'-prefixed entry is needed; '_offset' is compared when present).
+transform.  Deserialiser: Deserialiser.context only.  No '_'-prefixed entry is needed; where the description carries
+them they are compared as well: parse_info '_offset' (data-unit boundaries), the slices' '_sx' / '_sy', and the per-picture
+copy of the parser state '_state' of transform_data / fragment_data, which must hold that data unit's values of every
+variable above after the whole stream has been parsed (the default quantisation matrix excepted: the deserialiser never loads it).
 Everything on the comparison path - slice geometry, band order, inverse quantisation, DC prediction, video-parameter
 resolution, parse-code predicates - is an INDEPENDENT implementation written here from SMPTE ST 2042-1; no function of
 the tree under check is called for it.
@@ -34,6 +37,7 @@ clause/domain -> families (E = exhaustive over the stated small scope, R = seede
                           horizontal-only depths 0..2, slice grids, fragments, fields, 4:4:4/4:2:2/4:2:0, odd sizes) with
                           noise pictures, plain and with padding/auxiliary units, repeated headers and HQ prefix bytes
                           patched into the description before serialising (60 / 420 streams)
+  (in X2-X4 and X6-X8 the stated grid is enumerated completely, slice payloads are seeded: recorded as not exhaustive)
   X1   E LD slice bits    one-slice low-delay picture, 2-byte slice: every content (65536 thorough / stride 4096 quick) x
                           2 shapes; 1-byte slice: all 256 contents x 2 shapes (only valid slice_y_length is in the domain)
   X2   E HQ lengths       slice_{y,c1,c2}_length in {0,1,2,3}^3 x slice_size_scaler {1,2,3} x slice_prefix_bytes {0,1,2}
@@ -50,7 +54,9 @@ clause/domain -> families (E = exhaustive over the stated small scope, R = seede
                           {LD, HQ} x asymmetric wavelet index flag variants
   R1   R structured       seeded multi-sequence conformant streams mixing all of the above (4000 / 40000 streams)
 Bounds: frames at most 16x8 samples, at most 12 slices per picture, dwt_depth + dwt_depth_ho <= 4, exp-Golomb magnitudes
-up to 2^1024, at most 3 sequences and 6 pictures per stream; at most 6 worker processes.
+up to 2^1024, at most 3 sequences of at most 5 pictures per stream, level 0 only; at most 6 worker processes.  Guards of
+the check itself: the deserialiser gets CASE_SECONDS CPU-seconds per accepted stream (exceeding it = it did not read the
+stream: clause A) and each worker an address-space cap WORKER_EXTRA_BYTES above its start size (MemoryError = clause A).
 """
 import copy
 import io
@@ -737,6 +743,8 @@ def run_validator(data):
         E["decoder"].parse_stream(st)
     except E["decoder"].ConformanceError as e:
         return ("rejected", type(e).__name__)
+    except Exception as e:  # not a verdict: surfaced by the hook as a failed ground fact (never silently skipped)
+        return ("rejected", "UNEXPECTED " + type(e).__name__)
     sink.close_unit()
     return ("accepted", sink.units, sink.pictures)
 
@@ -1460,8 +1468,6 @@ def fam_r1(i, rng, tier, T):
             plan.append(("pic", t, frag, rng.choice([None, None, "coefs", "rand"]), kw))
         if rng.random() < 0.2:
             plan.append(("aux", rng.choice([0x20, 0x30]), None))
-        if npics == 0 and not v3:
-            pass
         if npics and v3 and not fragments and sh_min_version(s) < 3 and all(tp_min_version(it[1], False) < 3 for it in plan if it[0] == "pic"):
             # nothing requires version 3: make one picture's transform asymmetric so that the extended parameters are legitimate
             k = next(j for j, it in enumerate(plan) if it[0] == "pic")
@@ -1562,16 +1568,16 @@ FAMILIES = {
     "ENC": (fam_enc, False, "ENC encoder output: project encoder + serialiser on seeded codec features (LD/HQ, lossless/lossy, wavelets 0..6, depth 0..3, ho depth 0..2, slice grids up to 4x2, "
                             "fragments of 1..3 slices, fields, three colour formats, sizes 2x2..16x8) x {plain, + padding/aux/repeated headers, + HQ prefix bytes}"),
     "X1": (fam_x1, True, "X1 one-slice LD picture: every 1-byte slice content x 2 shapes; 2-byte slice contents x 2 shapes (all 65536 thorough / stride sample of 4096 quick)"),
-    "X2": (fam_x2, True, "X2 HQ picture of 2 slices: slice_{y,c1,c2}_length in {0..3}^3 x slice_size_scaler {1,2,3} x slice_prefix_bytes {0,1,2}, seeded payloads"),
-    "X3": (fam_x3, True, "X3 exp-Golomb magnitudes 2^k-1, 2^k, 2^k+1 for k in %s, both signs, first HQ / LD coefficient, whole and cut by the end of the block" % (X3_K,)),
-    "X4": (fam_x4, True, "X4 sequence header: every base video format, every preset index of every field (custom = index 0 too), picture coding mode x colour format x 4 frame sizes, "
+    "X2": (fam_x2, False, "X2 HQ picture of 2 slices: slice_{y,c1,c2}_length in {0..3}^3 x slice_size_scaler {1,2,3} x slice_prefix_bytes {0,1,2}, seeded payloads"),
+    "X3": (fam_x3, False, "X3 exp-Golomb magnitudes 2^k-1, 2^k, 2^k+1 for k in %s, both signs, first HQ / LD coefficient, whole and cut by the end of the block" % (X3_K,)),
+    "X4": (fam_x4, False, "X4 sequence header: every base video format, every preset index of every field (custom = index 0 too), picture coding mode x colour format x 4 frame sizes, "
                          "6 clean areas; other fields default (first pass) or seeded (further passes); one frame of pictures follows"),
     "X5": (fam_x5, True, "X5 padding bits: sequence-header end, transform-parameter end in a picture and in a first fragment, at each bit alignment 0..7 x all padding patterns"),
-    "X6": (fam_x6, True, "X6 auxiliary (0x20) and padding (0x30) units with payloads of 0..40 and 255..257 bytes x {after the header, between pictures, before the end, between fragments}; "
+    "X6": (fam_x6, False, "X6 auxiliary (0x20) and padding (0x30) units with payloads of 0..40 and 255..257 bytes x {after the header, between pictures, before the end, between fragments}; "
                          "pictures / fragments with next_parse_offset 0 or exact"),
-    "X7": (fam_x7, True, "X7 LD slice_bytes numerator/denominator in {n/d: d in 1..3, d <= n <= 12} and HQ (prefix, scaler) in {(0,1),(1,2),(3,3)} x slice grids {1x1,2x1,3x2,4x3} x "
+    "X7": (fam_x7, False, "X7 LD slice_bytes numerator/denominator in {n/d: d in 1..3, d <= n <= 12} and HQ (prefix, scaler) in {(0,1),(1,2),(3,3)} x slice grids {1x1,2x1,3x2,4x3} x "
                          "fragments of {none, 1, 2, 3, all} slices; two pictures each"),
-    "X8": (fam_x8, True, "X8 wavelet 0..6 x dwt_depth 0..3 x dwt_depth_ho 0..2 (sum <= 4) x {default, custom} quantisation matrix x {LD, HQ} x asymmetric wavelet flag {clear, set to the same, different}"),
+    "X8": (fam_x8, False, "X8 wavelet 0..6 x dwt_depth 0..3 x dwt_depth_ho 0..2 (sum <= 4) x {default, custom} quantisation matrix x {LD, HQ} x asymmetric wavelet flag {clear, set to the same, different}"),
     "R1": (fam_r1, False, "R1 seeded conformant streams: 1..3 sequences, random valid headers, 0..4 pictures as pictures or fragment runs with random splits, changing transform parameters, "
                           "padding / auxiliary units, repeated headers, picture numbers wrapping at 2^32"),
 }
@@ -1667,9 +1673,9 @@ def canary(T):
     v = run_validator(data)
     if v[0] != "accepted":
         return False, "canary stream rejected: %r" % (v,)
-    base = compare(data, v[1], v[2], run_deserialiser(data))[0]
-    if base:
-        return False, "canary stream itself differs: %r" % (base[:1],)
+    r = check_stream(data)
+    if r[0] != "ok":  # the two parsers already disagree on this plain stream: that is for the families to report, not a property of the oracle
+        return True, "not evaluated: the tree under check does not pass the canary stream itself (%s)" % (r[1][0][1][:120],)
     missed = []
 
     def mutate(name, f, clause):
@@ -1733,6 +1739,10 @@ def check(rep, tier, seed):
     low = {fam: "%d/%d" % (agg[fam]["accepted"], agg[fam]["n"]) for fam in sizes if agg[fam]["accepted"] < FLOOR.get(fam, 0.5) * agg[fam]["n"]}
     rep.add_eval_fact("C08 domain is not vacuous: in every family the validator accepts at least the stated share of the cases (0.5; X1: 0.3) and pictures were compared",
                       not low and total["pictures"] > 0 and total["coefficients"] > 0, "families below the floor: %s; pictures compared: %d" % (low or "none", total["pictures"]))
+    crashes = {fam: {k: c for k, c in agg[fam]["rejected"].items() if k.startswith("UNEXPECTED")} for fam in sizes}
+    crashes = {fam: v for fam, v in crashes.items() if v}
+    rep.add_eval_fact("C08 checker precondition: on the generated streams the validator either accepts or raises a ConformanceError (any other exception leaves the stream "
+                      "outside the statement's domain and is listed here)", not crashes, "other exceptions by family: %s" % (crashes or "none"))
     rep.extra_coverage["c08_compared"] = total
 
     fails = sorted((f for a in agg.values() for f in a["fails"]), key=lambda f: (len(f["stream_hex"]), f["family"], f["index"]))
